@@ -4,13 +4,14 @@ Only property statements live here; every proof is a reference to a lemma of Cod
 SimpleLemmas / VarsLemmas / Lemmas / JsonLemmas, so a statement cannot be weakened quietly.
 
 Not proved (tied by the correspondence run and decided by the direct oracle only): the regex lexer
-and the text layout of SimpleMRS (`lex (render ts) = ts`), the MRX tree round trip
-(`ofXml (toXml o m)`), Indexed MRS.
+and the text layout of SimpleMRS (`lex (render ts) = ts`), the text layout of MRX.
 -/
 import Verif.Common.CodecLemmas
 import Verif.C01.Lemmas
 import Verif.C01.JsonLemmas
 import Verif.C01.SimpleLemmas
+import Verif.C01.StableLemmas
+import Verif.C01.MrxLemmas
 
 namespace Verif.C01.P
 open Verif.Codec Verif.Tables Verif.C01
@@ -89,9 +90,28 @@ theorem decoder_variables (ms : List Mention) (v : Str) :
     dget (varsOfMentions ms) v = if ms.any (fun m => m.1 = v) then some (setAll [] (blocksOf v ms)) else none :=
   dget_varsOfMentions ms v
 
+/-- "encoding that result again reproduces the text exactly" (SimpleMRS, token level): the encoder's
+token list of the decoded structure is the token list of the original — for every structure whose
+`variables` is a dictionary (distinct keys), whatever the options. -/
+theorem simplemrs_stable (o : Opts) (m : MRS)
+    (hn : (m.vars.map (·.1)).Nodup) (hp : ∀ vp ∈ m.vars, (vp.2.map (·.1)).Nodup) :
+    toks o (decodedS o m) = toks o m := toks_decodedS o m hn hp
+
 /-- sorting by `property_priority` is idempotent (used for "encoding that result again reproduces
 the text exactly": the re-encoder sorts an already sorted property list). -/
 theorem sortProps_stable (ps : Props) : sortProps (sortProps ps) = sortProps ps := sortProps_idem ps
+
+/-! ## MRX, ElementTree level (etree.tostring/fromstring are the identity on these trees:
+assumption, checked on every generated case) -/
+
+/-- "decoding the encoded text yields an MRS with the same top, index, predications …, handle and
+individual constraints …; when properties or alignments are suppressed … exactly that information
+removed": `decodedX o m` is `m` with arguments in `role_priority` order, alignments as
+(cfrom, cto) — `<-1:-1>` for a missing one —, lnk/surface/base only when `o.lnk`, the identifier
+kept, and `variables` rebuilt from the `var` elements (properties at the first mention among index,
+arguments, `hi` of handle constraints, individual constraints). -/
+theorem mrx_roundtrip (o : Opts) (m : MRS) (h : ExprX m) : ofXml (toXml o m) = some (decodedX o m) :=
+  ofXml_toXml o m h
 
 /-! ## MRS-JSON, dictionary level (json.dumps/json.loads are the identity on these dictionaries:
 assumption, checked on every generated case) -/
